@@ -237,6 +237,15 @@ pub fn c10() -> i32 {
                         continue;
                     }
                     for x in scenarios("c10-split-ack-outage", "1+1+1", &[3, 8], &[0, 2, 3], &[false, true], 6 + n..7 + n, 0, timeouts, lat) {
+                        // only configurations in which the survivor must still hold the reference
+                        // frame: the dying peer runs at most window + delay frames past what was
+                        // acknowledged (plus the latency), and a receiver keeps 2 x window frames;
+                        // beyond that the last packets are legitimately undecodable for that
+                        // survivor, the survivors hold different amounts, and the run ends in
+                        // the known finding about unequal receipt
+                        if x.peers[0].delay + lat as usize + 2 > x.peers[0].window {
+                            continue;
+                        }
                         for surv in 0..2usize {
                             let mut x = x.clone();
                             let dead = x.peers.len() - 1;
